@@ -18,7 +18,9 @@ EXTENDS Integers, Sequences, TLC
 CONSTANTS ResetWhen, CrLfIsOne, CmdLineFrom, NParsers, MaxHist
 Texts == { <<"t_plain", 0, FALSE, FALSE, FALSE, 1, FALSE>>, <<"t_lead", 3, FALSE, FALSE, FALSE, 6, FALSE>>, <<"t_crlf", 2, TRUE, FALSE, FALSE, 4, FALSE>>,
            <<"t_v2", 1, FALSE, TRUE, FALSE, 2, FALSE>>, <<"t_split", 1, FALSE, FALSE, TRUE, 2, FALSE>>,
-           <<"t_bad", 2, FALSE, FALSE, FALSE, 4, TRUE>>, <<"t_badv2", 1, FALSE, TRUE, FALSE, 3, TRUE>> }
+           <<"t_bad", 2, FALSE, FALSE, FALSE, 4, TRUE>>, <<"t_badv2", 1, FALSE, TRUE, FALSE, 3, TRUE>>,
+           \* a list mixing values and pairs (an error the parser remembers in the object) followed by an ordinary syntax error
+           <<"t_mixbad", 0, FALSE, FALSE, FALSE, 0, TRUE>> }
 VARIABLES ctr, flag, hist
 vars == <<ctr, flag, hist>>
 Init == ctr = [p \in 1..NParsers |-> 1] /\ flag = [p \in 1..NParsers |-> FALSE] /\ hist = <<>>
